@@ -3982,9 +3982,12 @@ class IfThenElse(Construct):
         return sc._build(obj, stream, context, path)
 
     def _sizeof(self, context, path):
-        condfunc = evaluate(self.condfunc, context)
-        sc = self.thensubcon if condfunc else self.elsesubcon
-        return sc._sizeof(context, path)
+        try:
+            condfunc = evaluate(self.condfunc, context)
+            sc = self.thensubcon if condfunc else self.elsesubcon
+            return sc._sizeof(context, path)
+        except (KeyError, AttributeError):
+            raise SizeofError("cannot calculate size, key not found in context", path=path)
 
     def _emitparse(self, code):
         return "((%s) if (%s) else (%s))" % (self.thensubcon._compileparse(code), self.condfunc, self.elsesubcon._compileparse(code), )
